@@ -73,6 +73,21 @@ def configs(tier, seed):
         return c['mode'] == 'periodization' and any(D.per_short(n, L, c['J']) for n in dims)
     for c in [dict(dim=1, wave='db2', mode='zero', J=3, N=19, dir='fwd', sub=None), dict(dim=1, wave='db2', mode='periodization', J=3, N=24, dir='fwd', sub=None)]:
         out.append(c)
+    # user-supplied filter banks: odd lengths (LeGall 5/3 taps), distinct column / row wavelets
+    lg = dict(h0=[-0.125, 0.25, 0.75, 0.25, -0.125], h1=[-0.5, 1.0, -0.5], g0=[0.5, 1.0, 0.5], g1=[-0.125, -0.25, 0.75, -0.25, -0.125])
+    for mode in ('zero', 'periodization'):
+        out.append(dict(dim=1, wave=[lg['h0'], lg['h1'] + [0.0, 0.0]], mode=mode, J=1, N=12, dir='fwd', sub=None, custom='legall53'))
+        out.append(dict(dim=2, wave=[lg['h0'], lg['h1'] + [0.0, 0.0]], mode=mode, J=1, H=8, W=10, dir='fwd', sub=None, custom='legall53'))
+    for mode in ('zero', 'periodization', 'symmetric'):
+        out.append(dict(dim=2, wave='db2', wave_row='db3', mode=mode, J=2, H=12, W=12, dir='fwd', sub=None))
+        out.append(dict(dim=2, wave='db2', wave_row='bior1.3', mode=mode, J=1, H=8, W=8, dir='inv', sub=[1, 1]))
+    # several channels (channel interleaving of the grouped convolution matters in the backward pass)
+    for mode in ('zero', 'periodization'):
+        for s_ in ([1, 0], [1, 1], [0, 1]):
+            out.append(dict(dim=2, wave='db2', mode=mode, J=1, H=6, W=8, dir='inv', sub=s_, C=2))
+        out.append(dict(dim=2, wave='db2', mode=mode, J=2, H=8, W=8, dir='inv', sub=[1, 0, 1], C=3))
+        out.append(dict(dim=2, wave='db2', mode=mode, J=2, H=6, W=8, dir='fwd', sub=None, C=2))
+        out.append(dict(dim=1, wave='db2', mode=mode, J=2, N=12, dir='inv', sub=[1, 0, 1], C=2))
     # None levels in the inverse
     for mode in D.MODES:
         out.append(dict(dim=1, wave='db2', mode=mode, J=2, N=9, dir='inv', sub=[1, 0, 1], none=[1, 0]))
@@ -80,8 +95,16 @@ def configs(tier, seed):
     return out
 
 
+def _flen(cfg):
+    w = cfg['wave']
+    L = len(w[0]) if isinstance(w, list) else D.filt_len(w)
+    if cfg.get('wave_row'):
+        L = max(L, D.filt_len(cfg['wave_row']))
+    return L
+
+
 def _odd_level(cfg):
-    L = D.filt_len(cfg['wave'])
+    L = _flen(cfg)
     for n in ([cfg['N']] if cfg['dim'] == 1 else [cfg['H'], cfg['W']]):
         for _ in range(cfg['J']):
             if n % 2:
@@ -91,30 +114,46 @@ def _odd_level(cfg):
 
 
 def _border_width(cfg):
-    L = D.filt_len(cfg['wave'])
+    L = _flen(cfg)
     return (L - 1) * (2 ** cfg['J'] - 1) + 1
+
+
+def _wave_arg(cfg, inverse):
+    w = cfg['wave']
+    if isinstance(w, list):          # explicit (lowpass, highpass) taps
+        return tuple(np.array(f, dtype=float) for f in w)
+    if cfg.get('wave_row'):
+        wc = pywt.Wavelet(w); wr = pywt.Wavelet(cfg['wave_row'])
+        f = [wc.rec_lo, wc.rec_hi, wr.rec_lo, wr.rec_hi] if inverse else [wc.dec_lo, wc.dec_hi, wr.dec_lo, wr.dec_hi]
+        return tuple(np.array(v) for v in f)
+    return w
 
 
 def _run(pw, cfg, leaves):
     """leaves: list of input tensors (fwd: [x]; inv: [yl, yh1.. (None allowed)]) -> list of output tensors"""
     kinds = ('fwd1', 'inv1') if cfg['dim'] == 1 else ('fwd2', 'inv2')
     if cfg['dir'] == 'fwd':
-        yl, yh = D.make_module(pw, kinds[0], cfg)(leaves[0])
+        yl, yh = D.make_module(pw, kinds[0], dict(cfg, wave=_wave_arg(cfg, False)))(leaves[0])
         return [yl] + list(yh)
-    return [D.make_module(pw, kinds[1], cfg)((leaves[0], list(leaves[1:])))]
+    return [D.make_module(pw, kinds[1], dict(cfg, wave=_wave_arg(cfg, True)))((leaves[0], list(leaves[1:])))]
 
 
 def _leaf_shapes(cfg):
+    C = cfg.get('C', 1)
     if cfg['dir'] == 'fwd':
-        return [D.in_shape(dict(cfg, B=1, C=1))]
-    sl, sh = D.pyramid_shapes(cfg)
-    return [(1, 1) + tuple(sl)] + [(1, 1) + tuple(s) for s in sh]
+        return [D.in_shape(dict(cfg, B=1, C=C))]
+    if cfg.get('wave_row'):
+        c = pywt.wavedec2(np.zeros((cfg['H'], cfg['W'])), (pywt.Wavelet(cfg['wave']), pywt.Wavelet(cfg['wave_row'])), mode=cfg['mode'], level=cfg['J'])
+        sl, sh = c[0].shape, [(3,) + b[0].shape for b in c[1:][::-1]]
+    else:
+        sl, sh = D.pyramid_shapes(cfg)
+    return [(1, C) + tuple(sl)] + [(1, C) + tuple(s) for s in sh]
 
 
 def run_config(cfg):
     res = core.Result(cfg)
     core.begin()
-    L = D.filt_len(cfg['wave'])
+    L = _flen(cfg)
     try:
         shapes = _leaf_shapes(cfg)
     except Exception as e:
@@ -122,7 +161,7 @@ def run_config(cfg):
     nl = len(shapes)
     sub = cfg['sub'] if cfg['sub'] is not None else [1] * nl
     none = [0] + list(cfg.get('none') or [0] * (nl - 1)) if cfg['dir'] == 'inv' else [0]
-    facts0 = dict(dir=cfg['dir'], dim=cfg['dim'], mode=cfg['mode'], wave=cfg['wave'], odd_level=bool(cfg['dir'] == 'fwd' and _odd_level(cfg)),
+    facts0 = dict(dir=cfg['dir'], dim=cfg['dim'], mode=cfg['mode'], wave=str(cfg.get('custom') or cfg['wave']), odd_level=bool(cfg['dir'] == 'fwd' and _odd_level(cfg)), odd_filter=bool(_flen(cfg) % 2),
                   highpass_only=bool(cfg['dir'] == 'inv' and not sub[0]))
     bw = _border_width(cfg)
     dim = cfg['dim']
